@@ -32,7 +32,7 @@ def key_text(k):
     return "o:" + type(k).__name__
 
 
-def enc(v, fields=None, depth=0):
+def enc(v, fields=None, depth=0, namer=None):
     """fields: optional callable obj -> dict of field values (for 'obj' kinds); default: vars()."""
     if depth > 60:
         return _rec("opaque", "too-deep")
@@ -40,8 +40,9 @@ def enc(v, fields=None, depth=0):
         return _rec("none")
     if isinstance(v, bool):
         return _rec("bool", "true" if v else "false")
+    nm = namer or (lambda o: type(o).__name__)
     if isinstance(v, enum.Enum):
-        return _rec("enum", json.dumps(v.name)[1:-1], cls=type(v).__name__)
+        return _rec("enum", json.dumps(v.name)[1:-1], cls=nm(v))
     if isinstance(v, int):
         return _rec("int", str(v))
     if isinstance(v, float):
@@ -53,12 +54,12 @@ def enc(v, fields=None, depth=0):
     if isinstance(v, decimal.Decimal):
         return _rec("decimal", str(v), cls="Decimal")
     if isinstance(v, (list, tuple)):
-        return _rec("list" if isinstance(v, list) else "tuple", items=[enc(x, fields, depth + 1) for x in v])
+        return _rec("list" if isinstance(v, list) else "tuple", items=[enc(x, fields, depth + 1, namer) for x in v])
     if isinstance(v, (set, frozenset)):
-        items = sorted((enc(x, fields, depth + 1) for x in v), key=lambda r: json.dumps(r, sort_keys=True))
+        items = sorted((enc(x, fields, depth + 1, namer) for x in v), key=lambda r: json.dumps(r, sort_keys=True))
         return _rec("set" if isinstance(v, set) else "frozenset", items=items)
     if isinstance(v, dict):
-        pairs = sorted(((key_text(k), enc(x, fields, depth + 1)) for k, x in v.items()), key=lambda p: p[0])
+        pairs = sorted(((key_text(k), enc(x, fields, depth + 1, namer)) for k, x in v.items()), key=lambda p: p[0])
         return _rec("dict", items=[p[1] for p in pairs], keys=[p[0] for p in pairs])
     if fields is not None:
         try:
@@ -66,8 +67,8 @@ def enc(v, fields=None, depth=0):
         except Exception:
             fs = None
         if fs is not None:
-            pairs = sorted(((key_text(k), enc(x, fields, depth + 1)) for k, x in fs.items()), key=lambda p: p[0])
-            return _rec("obj", items=[p[1] for p in pairs], keys=[p[0] for p in pairs], cls=type(v).__name__)
+            pairs = sorted(((key_text(k), enc(x, fields, depth + 1, namer)) for k, x in fs.items()), key=lambda p: p[0])
+            return _rec("obj", items=[p[1] for p in pairs], keys=[p[0] for p in pairs], cls=nm(v))
     return _rec("opaque", type(v).__name__, cls=type(v).__name__)
 
 
